@@ -805,7 +805,7 @@ def build_fn(fs, repo, effectful, table_keys, canary=False):
                 txt = '\n' + txt
         add(off, txt, ('ob', insr.oid))
         nasserts = len(re.findall(r'\bassert\b', txt))
-        ob.append({'oid': insr.oid, 'kind': 'proof-block', 'tags': insr.tags or fs.safety,
+        ob.append({'oid': insr.oid, 'kind': 'proof-hint' if insr.hint else 'proof-block', 'tags': insr.tags or fs.safety,
                    'text': '%d assert(s) %s `%s`' % (nasserts, insr.where, insr.anchor), 'origin': insr.origin})
 
     if fs.external:
